@@ -205,6 +205,10 @@ func runC08(c *core.Ctx) {
 	// the metadata side of group designation: containment, clipping of new groups against live ones, truncation
 	c.Clause("D5", func() { runTimePredicates(c) })
 
+	// the canonical series key (which alone selects the shard) sorts the tags by their names: the scanner's
+	// comparison looks at the escape-aware tag keys and nothing else (shared with C12 D2)
+	c.Clause("D6", func() { runTagKeyComparisons(c) })
+
 	c.Clause("D4", func() { runRetentionCutoff(c) })
 }
 
